@@ -17,7 +17,7 @@ ASSUMPTIONS = ["aretry / alru_cache / acached_per_instance are exercised on the 
 DECOS = ["asynq", "pure", "proxy", "pair", "proxy_pair", "mad", "dedupe", "aretry", "alru", "per_instance"]
 BINDINGS = ["function", "instance", "class", "subclass", "classmethod", "staticmethod"]
 SIGS = {"x": "x", "x_y": "x, y=10", "x_kz": "x, *, z=20", "x_y_kz": "x, y=10, *, z=20"}
-BODIES = ["plain", "gen", "block", "raise"]
+BODIES = ["plain", "gen", "block", "raise", "retfuture"]
 FUNCTION_STYLE = ("aretry", "alru", "per_instance")
 
 
@@ -38,6 +38,9 @@ CELLS = cells()
 def body_src(kind, tag, recv, indent="    "):
     yv = "y" if True else ""
     pre = indent + "_y = locals().get('y'); _z = locals().get('z')\n"
+    if kind == "retfuture" and tag != "sync":
+        # the body's *result* is itself a future object (a handle the caller is meant to receive as is)
+        return pre + indent + "return ConstFuture([%r, %s, x, _y, _z])\n" % (tag, recv)
     if kind == "plain" or tag == "sync" and kind != "raise":
         return pre + indent + "return [%r, %s, x, _y, _z]\n" % (tag, recv)
     if kind == "gen":
@@ -95,7 +98,8 @@ def module_src(deco, sig, kind):
     for k in BODIES:
         src += "@asynq()\ndef _inner_%s(recv, x, y, z):\n" % k
         src += {"plain": "    return ['async', recv, x, y, z]\n", "gen": "    v = yield child.asynq(x)\n    return ['async', recv, v, y, z]\n",
-                "block": "    v = yield DebugBatchItem('c09', x)\n    return ['async', recv, v, y, z]\n", "raise": "    raise Boom(['async', recv, x, y, z])\n"}[k] + "\n"
+                "block": "    v = yield DebugBatchItem('c09', x)\n    return ['async', recv, v, y, z]\n", "raise": "    raise Boom(['async', recv, x, y, z])\n",
+                "retfuture": "    return ConstFuture(['async', recv, x, y, z])\n"}[k] + "\n"
     if not (deco == "per_instance"):
         src += define(deco, kind, "f", params, "", "None", "", sig) + "\n"
     src += "class Base(object):\n    def __init__(self, nm, truthy=True):\n        self.nm = nm\n        self.truthy = truthy\n\n    def __bool__(self):\n        return self.truthy\n\n"
@@ -118,7 +122,7 @@ def load(deco, sig, kind):
         from asynq.tools import deduplicate, aretry, alru_cache, acached_per_instance
         from asynq.batching import DebugBatchItem
         ns = {"asynq": A, "async_proxy": async_proxy, "make_async_decorator": make_async_decorator, "deduplicate": deduplicate, "aretry": aretry,
-              "alru_cache": alru_cache, "acached_per_instance": acached_per_instance, "DebugBatchItem": DebugBatchItem, "Boom": Boom, "Retry": Retry}
+              "alru_cache": alru_cache, "acached_per_instance": acached_per_instance, "DebugBatchItem": DebugBatchItem, "Boom": Boom, "Retry": Retry, "ConstFuture": asynq.ConstFuture}
         src = module_src(deco, sig, kind)
         exec(compile(src, "<c09 %s %s %s>" % key, "exec"), ns)
         _MODS[key] = ns
@@ -135,7 +139,11 @@ class Retry(Exception):
 
 def outcome(thunk):
     try:
-        return ["ok", thunk()]
+        r = thunk()
+        from asynq import FutureBase
+        if isinstance(r, FutureBase):
+            r = ["<future object>", r.value()]
+        return ["ok", r]
     except Boom as e:
         return ["exc", e.args[0]]
     except BaseException as e:
@@ -197,6 +205,8 @@ def check(case, ctx):
     a = tuple(pre + args)
     xv = ["child", x] if kind == "gen" else x
     exp_async = ["exc", ["async", recv, x, y_eff, z_eff]] if kind == "raise" else ["ok", ["async", recv, xv, y_eff, z_eff]]
+    if kind == "retfuture":
+        exp_async = ["ok", ["<future object>", ["async", recv, x, y_eff, z_eff]]]
     exp_sync = exp_async
     if deco in ("pair", "proxy_pair"):
         exp_sync = ["exc", ["sync", recv, x, y_eff, z_eff]] if kind == "raise" else ["ok", ["sync", recv, x, y_eff, z_eff]]
